@@ -69,6 +69,14 @@ reg(
     "DESIGN.md §3 C10",
 )
 
+reg(
+    "C11", "exploration",
+    "differential runtime monitor: live vs. JSON-restored vs. aged continuations at every cut point of a history, compared up to fresh identifiers",
+    "260 (thorough 6k) generated programs (hierarchies + a variable-holder flow with set, nested/shared lists, dict, regex, flow/action references) x histories of 8-12 events; at EVERY cut point the state is serialised and restored twice, and four branches (live, restored, restored+6s, live+6s) replay the rest under a frozen fake clock and identical tie-break seeds; serialisation/restoration must succeed and all branches must emit the same events modulo uuids.",
+    "trusts the canonicalisation of identifiers, FakeClock/ControlledRandom substitution; state reachable only through ungenerated constructs (LLM library flows, custom objects in variables) is not covered",
+    "DESIGN.md §3 C11",
+)
+
 NOT_BUILT_REASON = "check not built yet in this revision (claimed by DESIGN.md; see §5 order of work)"
 
 
